@@ -31,8 +31,12 @@ Detach(f) == [p \in DOMAIN handle |-> IF handle[p].f = f THEN [f |-> "unlinked",
 Start   == Is("start") /\ E.p \notin live /\ live' = live \cup {E.p} /\ solo' = (IF live = {} THEN E.p ELSE "none") /\ Keep /\ Adv
 Exists  == Is("exists") /\ E.p \in live /\ E.r = (file[E.file] # "missing") /\ Keep /\ UNCHANGED <<live, solo>> /\ Adv
 Acquire == Is("acquire") /\ E.p \in live /\ lock[E.file] = "none" /\ lock' = [lock EXCEPT ![E.file] = E.p] /\ UNCHANGED <<file, live, solo, handle, dir>> /\ Adv
+\* a wait for a lock somebody else holds may end in a time-out (the holder is stopped or slow): the waiting process goes on WITHOUT the lock
+Timeout == Is("timeout") /\ E.p \in live /\ lock[E.file] \notin {"none", E.p} /\ Keep /\ UNCHANGED <<live, solo>> /\ Adv
 Release == Is("release") /\ E.p \in live /\ lock[E.file] = E.p /\ lock' = [lock EXCEPT ![E.file] = "none"] /\ UNCHANGED <<file, live, solo, handle, dir>> /\ Adv
-OpenW   == Is("open") /\ E.p \in live /\ E.mode = "wb" /\ E.ok /\ file' = [file EXCEPT ![E.file] = "empty"] /\ handle' = Rewrite(E.file, "empty") /\ dir /\ UNCHANGED <<lock, live, solo, dir>> /\ Adv   \* truncates in place
+OpenW   == /\ Is("open") /\ E.p \in live /\ E.mode = "wb" /\ E.ok /\ dir /\ file' = [file EXCEPT ![E.file] = "empty"]      \* truncates in place (or creates)
+           /\ handle' = (E.p :> [f |-> E.file, k |-> "empty"]) @@ Rewrite(E.file, "empty")                                   \* the writer holds the inode open as well
+           /\ UNCHANGED <<lock, live, solo, dir>> /\ Adv
 OpenR   == /\ Is("open") /\ E.p \in live /\ E.mode = "rb" /\ E.ok = (file[E.file] # "missing")
            /\ handle' = (IF E.ok THEN (E.p :> [f |-> E.file, k |-> file[E.file]]) @@ handle ELSE handle)
            /\ UNCHANGED <<file, lock, live, solo, dir>> /\ Adv
@@ -42,7 +46,11 @@ OpenWNoDir == Is("open") /\ E.p \in live /\ E.mode = "wb" /\ ~E.ok /\ ~dir /\ Ke
 DirExists == Is("direxists") /\ E.p \in live /\ E.r = dir /\ Keep /\ UNCHANGED <<live, solo>> /\ Adv
 MkDir     == Is("mkdir") /\ E.p \in live /\ E.ok = (~dir \/ E.r) /\ dir' = TRUE /\ UNCHANGED <<file, lock, handle, live, solo>> /\ Adv      \* E.r: exist_ok
 Load    == Is("load") /\ E.p \in live /\ (E.res = "ok") = (H(E.p).k \in Loadable) /\ Keep /\ UNCHANGED <<live, solo>> /\ Adv     \* what the open handle holds
-Dump    == Is("dump") /\ E.p \in live /\ file[E.file] \in {"empty", "partial"} /\ file' = [file EXCEPT ![E.file] = "valid"] /\ handle' = Rewrite(E.file, "valid") /\ UNCHANGED <<lock, live, solo, dir>> /\ Adv
+\* the data go to the inode the writer holds open; if another process unlinked the file meanwhile (POSIX allows it), they go nowhere
+Dump    == /\ Is("dump") /\ E.p \in live
+           /\ IF H(E.p).f = "unlinked" THEN UNCHANGED <<file, handle>>
+              ELSE file[E.file] \in {"empty", "partial"} /\ file' = [file EXCEPT ![E.file] = "valid"] /\ handle' = Rewrite(E.file, "valid")
+           /\ UNCHANGED <<lock, live, solo, dir>> /\ Adv
 Remove  == Is("remove") /\ E.p \in live /\ E.ok = (file[E.file] # "missing") /\ file' = [file EXCEPT ![E.file] = "missing"] /\ handle' = Detach(E.file) /\ UNCHANGED <<lock, live, solo, dir>> /\ Adv
 Killed  == /\ Is("killed") /\ E.p \in live /\ live' = live \ {E.p}
            /\ lock' = [f \in Files |-> IF lock[f] = E.p THEN "none" ELSE lock[f]]      \* the kernel drops a dead holder's lock, the file stays as it is
@@ -55,7 +63,7 @@ Done    == /\ Is("done") /\ E.p \in live /\ live' = live \ {E.p}
            /\ solo' = "none" /\ Keep /\ Adv
 \* independent classification of the files at the end of the scenario (by a probe outside the scheduled processes)
 Final   == Is("final") /\ live = {} /\ \A f \in Files : E.state[f] = file[f] /\ UNCHANGED <<file, lock, live, solo, handle, dir>> /\ Adv
-Next == Start \/ Exists \/ DirExists \/ MkDir \/ Acquire \/ Release \/ OpenW \/ OpenWNoDir \/ OpenR \/ Load \/ Dump \/ Remove \/ Killed \/ Done \/ Final
+Next == Start \/ Exists \/ DirExists \/ MkDir \/ Acquire \/ Timeout \/ Release \/ OpenW \/ OpenWNoDir \/ OpenR \/ Load \/ Dump \/ Remove \/ Killed \/ Done \/ Final
 Constr == IF TLCGet(tid) < l THEN TLCSet(tid, l) ELSE TRUE
 Post == \A i \in 1..Len(Traces) : \/ TLCGet(i) - 1 = Len(Traces[i].ev)
           \/ PrintT(<<"REJ", Traces[i].id, TLCGet(i) - 1, Len(Traces[i].ev), Traces[i].ev[IF TLCGet(i) <= Len(Traces[i].ev) THEN TLCGet(i) ELSE Len(Traces[i].ev)].ev>>)
